@@ -204,8 +204,14 @@ func (p *Report) Floor(counter string, min int64) {
 // Finish writes the result file named by VERIF_RESULT (or stdout) and fails the test on violations.
 func (p *Report) Finish(t *testing.T) {
 	if t.Failed() {
-		// the test function was aborted (t.Fatal / t.Error) before the monitor finished: never a pass
-		p.HarnessError("the test function failed before the monitor completed (see the child's output)")
+		if os.Getenv("VERIF_RACE") == "1" {
+			// under the race detector testing marks the test failed as soon as a race has been reported; the driver reads
+			// the reports themselves (and makes this a harness error if there is none)
+			p.Set("failed_under_race", true)
+		} else {
+			// the test function was aborted (t.Fatal / t.Error) before the monitor finished: never a pass
+			p.HarnessError("the test function failed before the monitor completed (see the child's output)")
+		}
 	}
 	p.mu.Lock()
 	p.r.WallS = time.Since(p.start).Seconds()
@@ -234,6 +240,30 @@ func (p *Report) Finish(t *testing.T) {
 	}
 	if nv > 0 {
 		t.Errorf("%d distinct violation(s)", nv)
+	}
+}
+
+// Checkpoint writes what has been observed so far to VERIF_RESULT + ".partial" (done=false): if the child is killed by a
+// crash the driver still has the counts and violations of the cases explored before it.
+func (p *Report) Checkpoint() {
+	path := os.Getenv("VERIF_RESULT")
+	if path == "" {
+		return
+	}
+	p.mu.Lock()
+	p.r.WallS = time.Since(p.start).Seconds()
+	samples := p.r.Samples
+	if p.r.Samples == nil {
+		p.r.Samples = []interface{}{}
+	}
+	data, err := json.Marshal(&p.r)
+	p.r.Samples = samples
+	p.mu.Unlock()
+	if err != nil {
+		return
+	}
+	if os.WriteFile(path+".partial.tmp", data, 0o644) == nil {
+		_ = os.Rename(path+".partial.tmp", path+".partial")
 	}
 }
 
